@@ -35,6 +35,11 @@ func oracle(c Case, o *h.Obs) *h.Fail {
 	if c.GenFeat["excluded_signal_in_try_body"] > 0 {
 		o.Class("generator_kept_signals_out_of_a_try_body")
 	}
+	for _, k := range []string{"loop_cfor_without_condition", "loop_cfor_without_init", "loop_cfor_without_post", "loop_forin_map_keys_printing_alike", "stray_break_or_continue_in_callee"} {
+		if c.GenFeat[k] > 0 {
+			o.Class("gen_" + k)
+		}
+	}
 	// non-trivial: a break/continue/return crossed at least one enclosing block of another
 	// kind (if/else/switch/try/iteration) before being consumed by its loop / function
 	crossed := 0
@@ -57,7 +62,9 @@ func oracle(c Case, o *h.Obs) *h.Fail {
 		}
 	}
 	if !v.OK {
-		return h.Failf("C08|"+v.Clause, "program:\n%s\n%s", v.Src, v.Detail)
+		f := h.Failf("C08|"+v.Clause, "program:\n%s\n%s", v.Src, v.Detail)
+		f.NoShrink = v.Clause == "no-termination"
+		return f
 	}
 	return nil
 }
